@@ -2,9 +2,16 @@ package main
 
 import (
 	"bytes"
+	"crypto/ecdsa"
+	"crypto/elliptic"
+	"crypto/rand"
+	"crypto/tls"
+	"crypto/x509"
+	"crypto/x509/pkix"
 	"encoding/json"
 	"errors"
 	"fmt"
+	"math/big"
 	"net"
 	"strings"
 	"sync"
@@ -346,6 +353,94 @@ func (n *recNet) DialUDP(network string, laddr, raddr *net.UDPAddr) (transport.U
 	return c, nil
 }
 
+// pipeNet hands DialURI one end of an in-memory pipe; the other end is a TLS server.
+type pipeNet struct {
+	transport.Net
+	server net.Conn
+}
+
+func (n *pipeNet) Dial(network, address string) (net.Conn, error) {
+	c, s := net.Pipe()
+	n.server = s
+	return c, nil
+}
+
+// c17Cert makes a CA and a server certificate whose only subject alternative name is host (an IP SAN for an IP
+// literal, a DNS SAN otherwise).
+func c17Cert(host string) (tls.Certificate, *x509.CertPool, error) {
+	caKey, err := ecdsa.GenerateKey(elliptic.P256(), rand.Reader)
+	if err != nil {
+		return tls.Certificate{}, nil, err
+	}
+	caT := &x509.Certificate{SerialNumber: big.NewInt(1), Subject: pkix.Name{CommonName: "c17 ca"}, NotBefore: time.Now().Add(-time.Hour), NotAfter: time.Now().Add(time.Hour),
+		IsCA: true, KeyUsage: x509.KeyUsageCertSign, BasicConstraintsValid: true}
+	caDER, err := x509.CreateCertificate(rand.Reader, caT, caT, &caKey.PublicKey, caKey)
+	if err != nil {
+		return tls.Certificate{}, nil, err
+	}
+	ca, _ := x509.ParseCertificate(caDER)
+	key, _ := ecdsa.GenerateKey(elliptic.P256(), rand.Reader)
+	t := &x509.Certificate{SerialNumber: big.NewInt(2), Subject: pkix.Name{CommonName: "c17 server"}, NotBefore: time.Now().Add(-time.Hour), NotAfter: time.Now().Add(time.Hour),
+		KeyUsage: x509.KeyUsageDigitalSignature, ExtKeyUsage: []x509.ExtKeyUsage{x509.ExtKeyUsageServerAuth}}
+	if ip := net.ParseIP(host); ip != nil {
+		t.IPAddresses = []net.IP{ip}
+	} else {
+		t.DNSNames = []string{host}
+	}
+	der, err := x509.CreateCertificate(rand.Reader, t, ca, &key.PublicKey, caKey)
+	if err != nil {
+		return tls.Certificate{}, nil, err
+	}
+	pool := x509.NewCertPool()
+	pool.AddCert(ca)
+	return tls.Certificate{Certificate: [][]byte{der}, PrivateKey: key}, pool, nil
+}
+
+// c17TLSHandshake: "TLS over TCP with the host as server name" is observable only by verifying: a server that
+// presents a certificate valid for exactly the URI's host (and nothing else) must be accepted by the client DialURI
+// built, with certificate verification on. The client is configured with the CA only.
+func c17TLSHandshake(c *Ctx, scheme int, host string) {
+	c.Eval(1)
+	rp := map[string]interface{}{"kind": "tls", "dial": c17Dial{Scheme: scheme, Proto: int(stun.ProtoTypeTCP), Host: host, Port: 5349}}
+	cert, pool, err := c17Cert(host)
+	if err != nil {
+		c.Fail("certificate: %v", err)
+	}
+	nw := &pipeNet{}
+	u := &stun.URI{Scheme: stun.SchemeType(scheme), Proto: stun.ProtoTypeTCP, Host: host, Port: 5349}
+	var cl *stun.Client
+	if pn := catch(func() {
+		cl, err = stun.DialURI(u, &stun.DialConfig{Net: nw, TLSConfig: tls.Config{RootCAs: pool, MinVersion: tls.VersionTLS12}})
+	}); pn != "" || err != nil || nw.server == nil {
+		c.Violation("dial-tls", fmt.Sprintf("DialURI(%+v) with a TLS configuration: %v %s", *u, err, pn), rp)
+		return
+	}
+	srv := tls.Server(nw.server, &tls.Config{Certificates: []tls.Certificate{cert}, MinVersion: tls.VersionTLS12})
+	_ = nw.server.SetDeadline(time.Now().Add(10 * time.Second))
+	done := make(chan error, 1)
+	go func() { done <- srv.Handshake() }()
+	ierr := make(chan error, 1)
+	go func() { ierr <- cl.Indicate(stun.MustBuild(stun.BindingRequest, stun.TransactionID)) }()
+	var herr error
+	select {
+	case herr = <-done:
+	case <-time.After(12 * time.Second):
+		herr = errors.New("no handshake within 12 s")
+	}
+	var werr error
+	select {
+	case werr = <-ierr:
+	case <-time.After(2 * time.Second):
+	}
+	_ = nw.server.Close()
+	go cl.Close()
+	if herr != nil || werr != nil {
+		c.Violation("secure-scheme-server-name", fmt.Sprintf("DialURI(%+v): the TLS handshake with a server whose certificate is valid for exactly %q failed (server: %v, client write: %v): the client does not verify the connection against the URI's host", *u, host, herr, werr), rp)
+		return
+	}
+	c.Outcome("tls-handshake-verified")
+}
+
 type c17Dial struct {
 	Scheme int    `json:"scheme"`
 	Proto  int    `json:"proto"`
@@ -434,6 +529,14 @@ func c17DialCheck(c *Ctx, d c17Dial) {
 	go func() { indErr <- cl.Indicate(msg) }()
 	select {
 	case <-conn.first:
+	case ie := <-indErr:
+		select {
+		case <-conn.first:
+		default:
+			// the client gave up before it wrote a single byte: conclusive, no timing involved
+			c.Violation("dial-cannot-send", fmt.Sprintf("DialURI(%+v): the first Indicate returned %v and nothing was written to the dialled connection", *u, ie), rp)
+			return
+		}
 	case <-time.After(20 * time.Second):
 		c.Fail("DialURI(%+v): nothing was written to the connection within 20 s (harness cannot decide)", *u)
 	}
@@ -608,6 +711,15 @@ func init() {
 					}
 				}
 			}
+			// TLS handshakes against a server certificate for exactly the URI's host: names and IP literals
+			for _, scheme := range []int{int(stun.SchemeTypeSTUNS), int(stun.SchemeTypeTURNS)} {
+				for _, host := range []string{"example.org", "localhost", "192.0.2.7", "::1", "2001:db8::7"} {
+					j++
+					if c.Mine(j) {
+						c17TLSHandshake(c, scheme, host)
+					}
+				}
+			}
 			for _, scheme := range []int{int(stun.SchemeTypeSTUNS), int(stun.SchemeTypeTURNS)} {
 				for _, preset := range []bool{false, true} {
 					j++
@@ -646,6 +758,8 @@ func init() {
 				}
 			case "dial":
 				c17DialCheck(c, r.Dial)
+			case "tls":
+				c17TLSHandshake(c, r.Dial.Scheme, r.Dial.Host)
 			case "dialreuse":
 				var rr struct {
 					Scheme int  `json:"scheme"`
